@@ -504,6 +504,28 @@ Definition get_account_pit (d : db) (l a : N) (pit : Z) : option (option meta) :
       end
   end.
 
+(* accounts.go GetAccountsWithVolumes with a PIT (the listing; same query as above without LIMIT 1):
+   where ledger = ? and insertion_date <= pit; left join accounts_metadata on accounts_seq = seq and date < pit;
+   order by address, revision desc. One row per joined revision (a row with NULL metadata when none joins). *)
+Fixpoint ins_acc (x : acc_row) (l : list acc_row) : list acc_row :=
+  match l with
+  | [] => [x]
+  | y :: r => if N.leb (a_addr x) (a_addr y) then x :: l else y :: ins_acc x r
+  end.
+Fixpoint ins_rev (x : accm_row) (l : list accm_row) : list accm_row :=
+  match l with
+  | [] => [x]
+  | y :: r => if accm_rev_desc y x then y :: ins_rev x r else x :: l
+  end.
+Definition list_accounts_pit (d : db) (l : N) (pit : Z) : list (N * option meta) :=
+  flat_map (fun r =>
+    match fold_right ins_rev []
+            (rev (filter (fun h => Z.eqb (am_acc_seq h) (a_seq r) && Z.ltb (am_date h) pit) (d_accm d))) with
+    | [] => [(a_addr r, None)]
+    | hs => map (fun h => (a_addr r, Some (am_meta h))) hs
+    end)
+    (fold_right ins_acc [] (rev (filter (fun r => N.eqb (a_ledger r) l && Z.leb (a_ins r) pit) (d_acc d)))).
+
 (* what the store reports of a transaction *)
 Record tx_view := { v_id : Z; v_ts : Z; v_ref : option N; v_postings : list posting; v_meta : option meta;
                     v_reverted : bool }.
@@ -622,7 +644,8 @@ Inductive query :=
 | QAccount (l a : N)
 | QAccountPit (l a : N) (pit : Z)
 | QTx (l : N) (id : Z)
-| QTxPit (l : N) (id : Z) (pit : Z).
+| QTxPit (l : N) (id : Z) (pit : Z)
+| QAccountsPit (l : N) (pit : Z).
 
 Definition run_query (d : db) (q : query) : cell :=
   match q with
@@ -648,6 +671,7 @@ Definition run_query (d : db) (q : query) : cell :=
   | QAccountPit l a p => c_meta (match get_account_pit d l a p with Some (Some m) => m | _ => [] end)
   | QTx l id => c_txview (get_transaction d l id)
   | QTxPit l id p => c_txview (get_transaction_pit d l id p)
+  | QAccountsPit l p => CL (map (fun kv => CL [CN (fst kv); c_ometa (snd kv)]) (list_accounts_pit d l p))
   end.
 
 (* one case: a history, whether the stand-in database rejected its LAST entry, and what was read back *)
